@@ -2434,7 +2434,7 @@ def play_script(ctx, case, script, answers, stream='C13 grid-history'):
 
 
 def check_grid_history(ctx, hz):
-    cases = _ghist_directed() + [gen_ghist_case(ctx.rng) for _ in range(ctx.scale(160, 2500))]
+    cases = _ghist_directed() + [gen_ghist_case(ctx.rng) for _ in range(ctx.scale(160, 2000))]
     jobs = []
     for case in cases:
         bad, script, stats = run_ghist(hz, case)
@@ -2644,7 +2644,7 @@ def run_radial_extreme(hz, case):
 
 
 def check_scales(ctx, hz):
-    cases = _scale_directed() + [gen_scale_case(ctx.rng) for _ in range(ctx.scale(90, 1500))]
+    cases = _scale_directed() + [gen_scale_case(ctx.rng) for _ in range(ctx.scale(90, 1000))]
     jobs = []
     for case in cases:
         bad, script, stats = run_scale(hz, case)
